@@ -397,6 +397,10 @@ def build_rr(rr):
     return arr_data("return_result", rr)
 
 
+STDERR_TEXT = "warning: basis set is small\nnote: 2 near-linear dependencies"
+EXTRAS_GIVEN = {"tag": "t1", "n": 3}
+
+
 def build_A(spec, wfn_override=None):
     d = {
         "molecule": mol(),
@@ -410,6 +414,9 @@ def build_A(spec, wfn_override=None):
     }
     if spec["stdout"]:
         d["stdout"] = "I ran."
+    # fields no protocol governs: supplied on every case, must be retained as given whatever the protocols say
+    d["stderr"] = STDERR_TEXT
+    d["extras"] = dict(EXTRAS_GIVEN)
     if spec["files"] is not None:
         d["native_files"] = {file_name(i): f"content {i}" for i in spec["files"]}
     if spec["wfn"] is not None:
@@ -1271,7 +1278,11 @@ def check_A(ctx, out, spec, line, model_line):
         else:
             out.count("A:rejected_as_expected")
         return
-    # accepted
+    # accepted: what no protocol governs is retained exactly as given (stdout, native files and the wavefunction are the only
+    # things the protocols may drop)
+    if r.stderr != STDERR_TEXT or dict(r.extras) != EXTRAS_GIVEN:
+        viol(out, "oracle:ungoverned_field_dropped", line, f"stderr={r.stderr!r} extras={r.extras!r}", f"stderr={STDERR_TEXT!r} extras={EXTRAS_GIVEN!r}",
+             f"a field that no protocol governs was altered or dropped (protocols: wavefunction={spec['wp']}, stdout={spec['so']}, native_files={spec['nf']})")
     if exp["verdict"] == "reject":
         m = set(exp["misfits"])
         dip = {x for x in m if x.startswith("properties.") and x.split(".")[1] in UNVALIDATED_DIPOLES}
@@ -1577,6 +1588,23 @@ def check_E(ctx, out, spec, line, model_line):
     if touched:
         viol(out, KIND_CALLER_MODIFIED, line, f"{touched} changed in place", "inputs untouched",
              "validation modified the array object the caller passed in (shape or elements)", fields=touched)
+    if r is None and obs.startswith("err Validation "):
+        # "reshapes every array it is given ... or rejects it if the size does not fit": a rejection must be explained by an array
+        # whose SIZE does not fit, whatever factorisation or memory layout it was supplied in
+        natom = spec["props"]["natom"]
+        fitting = []
+        for loc in obs[len("err Validation "):].split(","):
+            name = loc[len("properties."):] if loc.startswith("properties.") else (loc if op == "PE" else None)
+            sh = dict(spec["props"]["arr"]).get(name) if name else None
+            if sh is not None:
+                imp = prop_implied(name, natom)
+                if imp != "need-natom" and (imp is None or prod(imp) == prod(sh)):
+                    fitting.append(f"{name} supplied as {sh} in layout '{spec['lay'].get('properties.' + name)}' (implied {imp})")
+            if loc == "return_result" and op == "AE" and not isinstance(spec.get("rr"), str) and rr_expect(spec["driver"], spec["rr"]) != "reject" \
+                    and not hess_inplace_class(spec, obs):
+                fitting.append(f"return_result supplied as {spec['rr']} in layout '{spec['lay'].get('return_result')}' for driver {spec['driver']}")
+        if fitting:
+            viol(out, "oracle:spurious_rejection", line, obs, "accepted and reshaped", "rejected although the size fits: " + "; ".join(fitting))
     if r is None:
         if hess_inplace_class(spec, obs):
             viol(out, KIND_HESS_INPLACE, line, obs, model_line or "accepted, return_result reshaped to (k, k)",
